@@ -454,7 +454,41 @@ def se_str(v):
     return zstr_to_py(v)
 
 
+def parse_is_a_function_of_its_text():
+    """CELParser.parse under contract: the tree handed back is the one lark's parser builds for THIS text, whatever the same
+    parser object parsed before (two consecutive calls with arbitrary, different texts on one object; lark's parser is an
+    abstract callee that tags each tree with the text it was given).  A cache, a normalised key or any other state carried
+    between calls makes the second result depend on the first text and fails the obligation."""
+    import z3
+    from pyvc import symexec as se
+    from pyvc.values import VObj, VStr, VModel, VNative
+
+    def invoke(run, S):
+        cp.CELParser()          # the class-level grammar is loaded (precondition of parse)
+
+        def lark_parse(run, text, *a, **kw):
+            return VObj(object, {"text_parsed": text}, label="tree")
+        parser = VObj(Lark, {"parse": VModel(lark_parse, "Lark.parse")}, label="lark")
+        self_ = VObj(cp.CELParser, {"parser": parser}, label="celparser")
+        S.t1, S.t2 = VStr(str, z3.String("text1")), VStr(str, z3.String("text2"))
+        run.assume(S.t1.t != S.t2.t)
+        parse = VNative(cp.CELParser.__dict__["parse"])
+        S.r1 = run.call(parse, [self_, S.t1])
+        return run.call(parse, [self_, S.t2])
+
+    def post(S, r):
+        ok1 = isinstance(S.r1, VObj) and "text_parsed" in S.r1.attrs
+        ok2 = isinstance(r, VObj) and "text_parsed" in r.attrs
+        if not (ok1 and ok2):
+            return False
+        return z3.And(S.r1.attrs["text_parsed"].t == S.t1.t, r.attrs["text_parsed"].t == S.t2.t)
+    return [V.Contract("celpy.celparser:CELParser.parse", [], name="CELParser.parse twice on one object: each tree is lark's tree for its own text",
+                       invoke=invoke, ret=post, exc={}, cover=False, native=False)]
+
+
 def build(rep, tier="quick", seed=0, known=None):
+    from pyvc.parallel import run_contracts
+    run_contracts(parse_is_a_function_of_its_text(), rep, known=known)
     grammar(rep)
     unparser(rep, known)
     listed = {k["id"]: k for k in (known or [])}
